@@ -443,7 +443,7 @@ def c04(tier, seed):
     res.coverage["states"] = res.coverage.get("states", 0) + rt["states"]
     res.coverage["traces_validated_against_impl"] = res.coverage.get("traces_validated_against_impl", 0) + rt["behaviours"]
     if m3["status_hist"].get("MaxTime", 0) == 0 and not res.violations:
-        raise ToolError("vacuity guard: no MaxTime verdict produced by the sleep-injection corpus")
+        if not res.violations: raise ToolError("vacuity guard: no MaxTime verdict produced by the sleep-injection corpus")   # (a violation already found is reported as such)
     return res
 
 
